@@ -13,6 +13,11 @@ use serde_json::{json, Value};
 
 pub const CLAIMED: [&str; 12] = ["C02", "C04", "C05", "C06", "C07", "C08", "C09", "C10", "C12", "C17", "C18", "C19"];
 
+/// The encoders whose tables differ between build configurations.
+pub const CJK7: [&Encoding; 7] = [BIG5, EUC_JP, EUC_KR, GBK, GB18030, ISO_2022_JP, SHIFT_JIS];
+pub const SWEEP11: [&Encoding; 11] = [BIG5, EUC_JP, EUC_KR, GBK, GB18030, ISO_2022_JP, SHIFT_JIS, WINDOWS_1252, UTF_8, X_USER_DEFINED, KOI8_U];
+pub const SWEEP_BLOCKS: u64 = (0x110000 + 47) / 48;
+
 #[derive(Clone, Debug)]
 pub enum Case {
     Dec { spec: DecSpec, ops: Vec<Op>, strategy: String },
@@ -170,8 +175,33 @@ fn draw_dec_spec(rng: &mut Rng, prop: &str, skip_fast: bool) -> (DecSpec, DecStr
     (DecSpec { enc, bom, repl, form16, stream: st.bytes.clone(), skip_fast }, st)
 }
 
+/// Systematic sweep: run `k` pushes block `k / encoders` of 48 consecutive
+/// scalar values through encoder `k % encoders`, each value with PRNG-chosen
+/// ASCII / non-ASCII neighbours, so that a full cycle passes every scalar
+/// value through every listed encoder inside some history.
+fn sweep_enc_spec(rng: &mut Rng, encoders: &[&'static Encoding], k: u64, prop: &str) -> EncSpec {
+    let enc = encoders[(k % encoders.len() as u64) as usize];
+    let block = (k / encoders.len() as u64) % SWEEP_BLOCKS;
+    let form16 = (k / (encoders.len() as u64 * SWEEP_BLOCKS)) % 2 == 1;
+    let mut text = Vec::new();
+    for j in 0..48u32 {
+        let v = block as u32 * 48 + j;
+        if v > 0x10FFFF || (0xD800..0xE000).contains(&v) {
+            continue;
+        }
+        match rng.below(4) {
+            0 => text.push(Unit::Scalar('a')),
+            1 => text.push(Unit::Scalar(rng.pick(&['\u{3042}', '\u{4E00}', '\u{AC00}', '\u{E9}', '\u{FF71}']))),
+            _ => {}
+        }
+        text.push(Unit::Scalar(char::from_u32(v).unwrap()));
+    }
+    let repl = if prop == "C09" { true } else { rng.chance(1, 2) };
+    EncSpec { enc, repl, form16, text }
+}
+
 fn draw_enc_spec(rng: &mut Rng, prop: &str) -> EncSpec {
-    let enc = if rng.chance(1, 8) { crate::encs::ALL[rng.below(40)] } else { rng.pick(&[BIG5, EUC_JP, EUC_KR, GBK, GB18030, ISO_2022_JP, ISO_2022_JP, SHIFT_JIS, UTF_8, WINDOWS_1252, X_USER_DEFINED, KOI8_U, UTF_16LE]) };
+    let enc = if prop == "C17" { rng.pick(&CJK7) } else if rng.chance(1, 8) { crate::encs::ALL[rng.below(40)] } else { rng.pick(&[BIG5, EUC_JP, EUC_KR, GBK, GB18030, ISO_2022_JP, ISO_2022_JP, SHIFT_JIS, UTF_8, WINDOWS_1252, X_USER_DEFINED, KOI8_U, UTF_16LE]) };
     let form16 = rng.chance(1, 2);
     let long = rng.chance(3, 20);
     let cfg = draw_text_cfg(rng, long, form16);
@@ -185,7 +215,7 @@ fn draw_enc_spec(rng: &mut Rng, prop: &str) -> EncSpec {
 
 fn draw_mem_spec(rng: &mut Rng) -> MemSpec {
     let func = rng.pick(&[MemFn::Utf16ToUtf8Partial, MemFn::Utf16ToStrPartial, MemFn::Utf16ToStrPartial, MemFn::Latin1ToUtf8Partial, MemFn::Latin1ToStrPartial]);
-    let n = if rng.chance(1, 4) { rng.range(30, 300) } else { rng.range(0, 40) };
+    let n = if crate::gen::tiny() { rng.range(0, 24) } else if rng.chance(1, 4) { rng.range(30, 300) } else { rng.range(0, 40) };
     let ascii_pct = rng.pick(&[0usize, 50, 90, 98]);
     let mut src = Vec::with_capacity(n);
     while src.len() < n {
@@ -209,9 +239,18 @@ fn draw_mem_spec(rng: &mut Rng) -> MemSpec {
 }
 
 /// Draw the case (without ops) and the swarm profile for one run.
-pub fn generate(prop: &str, rng: &mut Rng, skip_fast: bool) -> (Case, Profile) {
+pub fn generate(prop: &str, rng: &mut Rng, skip_fast: bool, run_index: u64) -> (Case, Profile) {
+    // systematic scalar sweeps (C12, C17): every other run
+    if !crate::gen::tiny() && ((prop == "C17" && run_index % 2 == 0) || (prop == "C12" && run_index % 2 == 0)) {
+        let spec = if prop == "C17" { sweep_enc_spec(rng, &CJK7, run_index / 2, prop) } else { sweep_enc_spec(rng, &SWEEP11, run_index / 2, prop) };
+        let mut p = Profile::draw(rng, &[K_SLICE, K_STRING]);
+        p.thresholds = vec![10, 14, 13, 4];
+        p.pipe = prop == "C12";
+        return (Case::Enc { spec, ops: Vec::new() }, p);
+    }
     // which scenario
     let scen = match prop {
+        "C17" => rng.weighted(&[4, 5, 1]),
         "C02" | "C10" | "C19" => 0,
         "C04" | "C12" => 1,
         "C05" => rng.weighted(&[7, 0, 3]),
